@@ -80,11 +80,21 @@ func libRead(frame []byte) mon.ReadResult { return mon.Read(bytes.NewReader(fram
 // corpus first, then nHuge four-byte-remaining-length packets, then seeded
 // random packets.
 type corpus struct {
-	core  []gen.CoreCase
-	nHuge int
-	nRand int
-	dom   gen.Domain
-	name  string
+	core   []gen.CoreCase
+	nHuge  int
+	nRand  int
+	nGiant int // PUBLISH packets of 16 MiB and more (gen.GiantSizes), for the checks that ask for them
+	dom    gen.Domain
+	name   string
+}
+
+// withGiant adds the first n giant PUBLISH packets to the corpus.
+func (c corpus) withGiant(n int) corpus {
+	if n > len(gen.GiantSizes) {
+		n = len(gen.GiantSizes)
+	}
+	c.nGiant = n
+	return c
 }
 
 var coreList = gen.Core()
@@ -95,7 +105,9 @@ func newCorpus(name string, dom gen.Domain, nHuge, nRand int) corpus {
 
 var twoBoundary = gen.TwoBoundaryPairs()
 
-func (c corpus) N() int { return len(c.core) + c.nHuge + len(twoBoundary) + c.nRand }
+func (c corpus) N() int {
+	return len(c.core) + c.nHuge + len(twoBoundary) + gen.ByteSweepN + c.nGiant + c.nRand
+}
 
 // Get returns abstract packet idx and a label of the corpus part.
 func (c corpus) Get(env run.Env, idx int) (*ref.Packet, string) {
@@ -112,6 +124,14 @@ func (c corpus) Get(env run.Env, idx int) (*ref.Packet, string) {
 			return p, "two-boundary"
 		}
 		return gen.Random(r, c.dom), "random"
+	}
+	idx -= len(c.core) + c.nHuge + len(twoBoundary)
+	if idx < gen.ByteSweepN {
+		return gen.ByteSweep(r, idx, c.dom), "byte-sweep"
+	}
+	idx -= gen.ByteSweepN
+	if idx < c.nGiant {
+		return gen.GiantPacket(r, gen.GiantSizes[idx]), "giant"
 	}
 	return gen.Random(r, c.dom), "random"
 }
